@@ -132,7 +132,10 @@ func encode(proto string, isReq bool, pid int, key int, st *encState) []byte {
 		fr = append(fr, be32(len(pl))...)
 		fr = append(fr, pl...)
 		return append(fr, 0xCE)
-	case "kafka":
+	case "kafka", "kafkadesc":
+		if proto == "kafkadesc" {
+			key = 100000 - key // correlation ids that go DOWN from one request to the next
+		}
 		var body []byte
 		if isReq {
 			// Metadata v0 request: header (api key 3, version 0, correlation id, client id) + empty topic array
@@ -256,6 +259,9 @@ func newWorld(proto string, conns []int) *world {
 	}
 	if proto == "amqphb" {
 		extName = "amqp"
+	}
+	if proto == "kafkadesc" {
+		extName = "kafka"
 	}
 	ext := extensions.ExtensionsMap[extName]
 	w := &world{proto: proto, ext: ext, matcher: ext.Dissector.NewResponseRequestMatcher(), stats: &api.AppStats{},
